@@ -47,13 +47,14 @@ CLAIMED = {
          "5/C09", "preemption only at the instrumented points (parser locks, tag storage accesses); free-running preemption at other points is not sampled yet",
          "TLA+ atomic-effect model + TLC interleavings; TLC-emitted schedules forced on real threads; histories checked for linearizability by TLC"),
  "C08": ("fault_enumeration",
-         "spec/Hostile.tla lays valid frames (write, read, bundle, register, forward open) out as named parts -- every length, count, offset, "
+         "spec/Hostile.tla lays valid frames (write, read, bundle, register, forward open, set attribute single) out as named parts -- every length, count, offset, "
          "size and type field of every nesting level -- and enumerates part x operator mutation plans (zero, +-1, max, drop, dup, "
-         "bit flip, truncate after/inside, insert) at three session points; plus seeded random octets, splices and bit flips; each "
+         "bit flip, truncate after/inside, insert) on the frame and on the re-framed inner message, at three session points; plus seeded random octets, splices and bit flips; each "
          "runs against the real server (virtual socket) under a watchdog; TLC (HostileTrace) checks the contract: finished in "
          "time, well-framed replies only, closed at the end, tag shapes intact, a tag changed only by an acknowledged / intact "
-         "write, a following session served correctly.",
-         "5/C08", "TCP sessions only (the UDP path is not driven: seeded change C08-2 is missed); byte-level fuzz is sampling; a failing bundle may have executed well-formed member writes",
+         "write, a following session served correctly.  The datagram service (spec/Udp.tla, model-checked; UdpTrace) gets the same octets as "
+         "datagrams between well-formed ones from several peers: every well-formed datagram is answered as if alone.",
+         "5/C08", "virtual TCP socket and scripted UDP recvfrom (no kernel sockets); byte-level fuzz is sampling; a failing bundle may have executed well-formed member writes",
          "TLC-enumerated structure-aware mutation plans + seeded fuzz replayed on the real server; contract decided by TLC trace spec"),
  "C17": ("exploration",
          "spec/Times.tla (integer microseconds): TLC checks the order law on a window of instants around a second boundary, the zone "
